@@ -15,13 +15,23 @@ import (
 
 // refKey is reorderKey of the documentation: the "__key" of an object, the value itself for a
 // comparable scalar, nil otherwise.
+type hBytes string
+
+// cmpKey: a []byte key compares by content.
+func cmpKey(k interface{}) interface{} {
+	if b, ok := k.([]byte); ok {
+		return hBytes(b)
+	}
+	return k
+}
+
 func refKey(v interface{}) interface{} {
 	switch x := v.(type) {
 	case nil:
 		return nil
 	case map[string]interface{}:
 		if k, ok := x["__key"]; ok {
-			return k
+			return cmpKey(k)
 		}
 		return nil
 	case []interface{}, []byte:
@@ -121,7 +131,7 @@ func keysComparable(v interface{}) bool {
 	case map[string]interface{}:
 		if k, ok := x["__key"]; ok {
 			switch k.(type) {
-			case []byte, []interface{}, map[string]interface{}:
+			case []interface{}, map[string]interface{}:
 				return false
 			}
 		}
@@ -265,7 +275,7 @@ func (w *deltaWalk) checkDelta(old, nw, d interface{}, path string) string {
 	switch n := nw.(type) {
 	case map[string]interface{}:
 		o, ok := old.(map[string]interface{})
-		if !ok || o["__key"] != n["__key"] {
+		if !ok || cmpKey(o["__key"]) != cmpKey(n["__key"]) {
 			return wantReplacement(nw, d, path)
 		}
 		dm, ok := d.(map[string]interface{})
